@@ -203,6 +203,32 @@ func cross(o *hlib.Out, rng *hlib.Rng, c cfg, a, b tink.AEAD, what string, maxPt
 	o.Emit(fmt.Sprintf("!A dec %s %s %s", c.model, hlib.Tok(cta), adTok), rej(back, err), true)
 }
 
+// edge: the empty and the one-byte plaintext (with empty and non-empty associated data) for a
+// parameter point, deterministically: length guards that depend on a parameter show up here.
+func edge(o *hlib.Out, rng *hlib.Rng, c cfg, what string) {
+	for _, ptl := range []int{0, 1} {
+		for _, adl := range []int{0, 1 + rng.Intn(40)} {
+			pt, ad := rng.Bytes(ptl), rng.Bytes(adl)
+			ct, err := c.prim.Encrypt(pt, ad)
+			if err != nil {
+				o.Violate("Encrypt failed (%s via %s, |pt|=%d): %v", c.kind, what, ptl, err)
+				continue
+			}
+			if len(ct) != c.preLen+c.rndLen+len(pt)+c.tagLen {
+				o.Violate("ciphertext length %d is not prefix+nonce+|pt|+tag (%s via %s)", len(ct), c.kind, what)
+				continue
+			}
+			o.Emit(fmt.Sprintf("!A enc %s %s %s %s", c.model, hlib.Tok(ct[c.preLen:c.preLen+c.rndLen]), hlib.Tok(pt), hlib.Tok(ad)), "ok "+hlib.Tok(ct), true)
+			back, err := c.prim.Decrypt(ct, ad)
+			if err != nil || !bytes.Equal(back, pt) {
+				o.Violate("Decrypt(Encrypt(pt)) != pt (%s via %s, |pt|=%d |ad|=%d): %v", c.kind, what, ptl, adl, err)
+			}
+			o.Emit(fmt.Sprintf("!A dec %s %s %s", c.model, hlib.Tok(ct), hlib.Tok(ad)), rej(back, err), true)
+			o.Count("grid/edge-plaintexts")
+		}
+	}
+}
+
 // gridSpecs enumerates the parameter space. AES-CTR-HMAC: aes key {16,32} × iv {12..16} × hash
 // {SHA1..SHA512} × tag sizes (quick: 10, 11, 16, digest-1, digest and two in between; thorough:
 // every size 10..digest), HMAC key size and variant cycling; the other types completely.
@@ -305,6 +331,8 @@ func runGrid(o *hlib.Out, rng *hlib.Rng, mut bool) {
 		c2.prim = viaKey
 		c2.kind = c.kind + "/perkey"
 		exercise(o, rng, c2, mut, 1, 130)
+		edge(o, rng, c, "aead.New")
+		edge(o, rng, c2, "per-key")
 		cross(o, rng, c, viaNew, viaKey, "per-key", 70)
 		o.Count("grid/entry/new+perkey")
 		// entry point 3 (RAW keys): the key manager, registry.Primitive(typeURL, serialized key)
@@ -326,7 +354,10 @@ func runGrid(o *hlib.Out, rng *hlib.Rng, mut bool) {
 // candidate — must decrypt, the caller's buffer must survive, and a second Decrypt of it must work.
 func runKeysets(o *hlib.Out, rng *hlib.Rng, mut bool) {
 	fams := []string{"gcm", "gcmsiv", "ctrhmac", "chacha", "xchacha", "xaes", "mixed"}
-	n := hlib.N(70, 1400)
+	n := hlib.N(140, 1400)
+	if mut {
+		n = hlib.N(70, 700)
+	}
 	for t := 0; t < n; t++ {
 		o.Case()
 		fam := fams[t%len(fams)]
